@@ -245,9 +245,11 @@ structure Inv (s : Sys) : Prop where
   resumeTask : ∀ t p, s.resumeOn t = some p → (s.prom t).kind = .task
   awKind : ∀ a t p, s.act a = .awLock t p → (s.prom p).kind ≠ .none
   enqSettled : ∀ a p rest, s.act a = .resEnq p rest → (s.prom p).settled ≠ none
+  resumeLoc : ∀ t p, s.resumeOn t = some p →
+      s.loc t = .waiting p ∨ s.loc t = .queued ∨ ∃ a, s.loc t = .actor a ∧ (s.act a).isEnq = true
 
 theorem inv_init : Inv init := by
-  constructor <;> simp [init, AState.holdCount, AState.holdsLock]
+  constructor <;> simp [init, AState.holdCount, AState.holdsLock, AState.isEnq]
 
 
 
@@ -272,23 +274,23 @@ theorem count_eraseFirst (c t : Nat) (l : List Nat) :
       · simp [hc]
 
 macro "inv_split" : tactic => `(tactic|
-  (refine ⟨?_, ?_, ?_, ?_, ?_, ?_, ?_, ?_, ?_, ?_, ?_, ?_, ?_, ?_, ?_, ?_, ?_, ?_, ?_, ?_, ?_, ?_, ?_⟩ <;>
+  (refine ⟨?_, ?_, ?_, ?_, ?_, ?_, ?_, ?_, ?_, ?_, ?_, ?_, ?_, ?_, ?_, ?_, ?_, ?_, ?_, ?_, ?_, ?_, ?_, ?_⟩ <;>
     simp only [upd_apply, setProm, apply_ite PState.settled, apply_ite PState.conts, apply_ite PState.locked, apply_ite PState.kind, apply_ite PState.claimed, List.count_append, List.count_cons, List.count_nil, count_eraseFirst] <;> intros))
 
 theorem inv_add {N Q s a c s'} (hi : Inv s) (h : Step N Q s (.add a c) s') : Inv s' := by
   obtain ⟨ret, hst, hk, rfl⟩ := step_add h
-  obtain ⟨h1,h2,h3,h4,h5,h6,h7,h8,h9,h10,h11,h12,h13,h14,h15,h16,h17,h18,h19,h20,h21,h22,h23⟩ := hi
+  obtain ⟨h1,h2,h3,h4,h5,h6,h7,h8,h9,h10,h11,h12,h13,h14,h15,h16,h17,h18,h19,h20,h21,h22,h23,h24⟩ := hi
   have e1 := starter_hold hst
   have e2 := starter_lock hst
   have e3 := starter_some hst
   have ha2 := h2 a
   simp only [e1] at ha2
   inv_split
-  all_goals grind [AState.holdCount, AState.holdsLock]
+  all_goals grind [AState.holdCount, AState.holdsLock, AState.isEnq]
 
 theorem inv_enq {N Q s a c s'} (hi : Inv s) (h : Step N Q s (.enq a c) s') : Inv s' := by
   obtain ⟨ret, ha, hq, rfl⟩ := step_enq h
-  obtain ⟨h1,h2,h3,h4,h5,h6,h7,h8,h9,h10,h11,h12,h13,h14,h15,h16,h17,h18,h19,h20,h21,h22,h23⟩ := hi
+  obtain ⟨h1,h2,h3,h4,h5,h6,h7,h8,h9,h10,h11,h12,h13,h14,h15,h16,h17,h18,h19,h20,h21,h22,h23,h24⟩ := hi
   have ha2 := h2 a
   simp only [ha, AState.holdCount, List.count_cons, List.count_nil, Nat.zero_add] at ha2
   have ha7 := h7 a
@@ -297,113 +299,113 @@ theorem inv_enq {N Q s a c s'} (hi : Inv s) (h : Step N Q s (.enq a c) s') : Inv
   have e2 := retState_lock ret
   have e3 : retState ret = .idle ∨ ∃ t, retState ret = .run t := by cases ret <;> simp [retState]
   inv_split
-  all_goals grind [AState.holdCount, AState.holdsLock]
+  all_goals grind [AState.holdCount, AState.holdsLock, AState.isEnq]
 
 theorem inv_deq {N Q s a t s'} (hi : Inv s) (h : Step N Q s (.deq a t) s') : Inv s' := by
   obtain ⟨ha, hn, hm, rfl⟩ := step_deq h
-  obtain ⟨h1,h2,h3,h4,h5,h6,h7,h8,h9,h10,h11,h12,h13,h14,h15,h16,h17,h18,h19,h20,h21,h22,h23⟩ := hi
+  obtain ⟨h1,h2,h3,h4,h5,h6,h7,h8,h9,h10,h11,h12,h13,h14,h15,h16,h17,h18,h19,h20,h21,h22,h23,h24⟩ := hi
   have ha2 := h2 a
   simp only [ha, AState.holdCount, List.count_cons, List.count_nil, Nat.zero_add] at ha2
   have ha7 := h7 a
   simp only [ha, AState.holdsLock] at ha7
   inv_split
-  all_goals grind [AState.holdCount, AState.holdsLock]
+  all_goals grind [AState.holdCount, AState.holdsLock, AState.isEnq]
 
 theorem inv_aw {N Q s a p s'} (hi : Inv s) (h : Step N Q s (.aw a p) s') : Inv s' := by
   obtain ⟨t, ha, hk, rfl⟩ := step_aw h
-  obtain ⟨h1,h2,h3,h4,h5,h6,h7,h8,h9,h10,h11,h12,h13,h14,h15,h16,h17,h18,h19,h20,h21,h22,h23⟩ := hi
+  obtain ⟨h1,h2,h3,h4,h5,h6,h7,h8,h9,h10,h11,h12,h13,h14,h15,h16,h17,h18,h19,h20,h21,h22,h23,h24⟩ := hi
   have ha2 := h2 a
   simp only [ha, AState.holdCount, List.count_cons, List.count_nil, Nat.zero_add] at ha2
   have ha7 := h7 a
   simp only [ha, AState.holdsLock] at ha7
   inv_split
-  all_goals grind [AState.holdCount, AState.holdsLock]
+  all_goals grind [AState.holdCount, AState.holdsLock, AState.isEnq]
 
 theorem inv_awl {N Q s a p s'} (hi : Inv s) (h : Step N Q s (.awl a p) s') : Inv s' := by
   obtain ⟨t, ha, hl, rfl⟩ := step_awl h
-  obtain ⟨h1,h2,h3,h4,h5,h6,h7,h8,h9,h10,h11,h12,h13,h14,h15,h16,h17,h18,h19,h20,h21,h22,h23⟩ := hi
+  obtain ⟨h1,h2,h3,h4,h5,h6,h7,h8,h9,h10,h11,h12,h13,h14,h15,h16,h17,h18,h19,h20,h21,h22,h23,h24⟩ := hi
   have ha2 := h2 a
   simp only [ha, AState.holdCount, List.count_cons, List.count_nil, Nat.zero_add] at ha2
   have ha7 := h7 a
   simp only [ha, AState.holdsLock] at ha7
   inv_split
-  all_goals grind [AState.holdCount, AState.holdsLock]
+  all_goals grind [AState.holdCount, AState.holdsLock, AState.isEnq]
 
 theorem inv_aws {N Q s a p s'} (hi : Inv s) (h : Step N Q s (.aws a p) s') : Inv s' := by
   obtain ⟨t, ha, hs, rfl⟩ := step_aws h
-  obtain ⟨h1,h2,h3,h4,h5,h6,h7,h8,h9,h10,h11,h12,h13,h14,h15,h16,h17,h18,h19,h20,h21,h22,h23⟩ := hi
+  obtain ⟨h1,h2,h3,h4,h5,h6,h7,h8,h9,h10,h11,h12,h13,h14,h15,h16,h17,h18,h19,h20,h21,h22,h23,h24⟩ := hi
   have ha2 := h2 a
   simp only [ha, AState.holdCount, List.count_cons, List.count_nil, Nat.zero_add] at ha2
   have ha7 := h7 a
   simp only [ha, AState.holdsLock] at ha7
   inv_split
-  all_goals grind [AState.holdCount, AState.holdsLock]
+  all_goals grind [AState.holdCount, AState.holdsLock, AState.isEnq]
 
 theorem inv_awr {N Q s a p s'} (hi : Inv s) (h : Step N Q s (.awr a p) s') : Inv s' := by
   obtain ⟨t, ha, hs, rfl⟩ := step_awr h
-  obtain ⟨h1,h2,h3,h4,h5,h6,h7,h8,h9,h10,h11,h12,h13,h14,h15,h16,h17,h18,h19,h20,h21,h22,h23⟩ := hi
+  obtain ⟨h1,h2,h3,h4,h5,h6,h7,h8,h9,h10,h11,h12,h13,h14,h15,h16,h17,h18,h19,h20,h21,h22,h23,h24⟩ := hi
   have ha2 := h2 a
   simp only [ha, AState.holdCount, List.count_cons, List.count_nil, Nat.zero_add] at ha2
   have ha7 := h7 a
   simp only [ha, AState.holdsLock] at ha7
   inv_split
-  all_goals grind [AState.holdCount, AState.holdsLock]
+  all_goals grind [AState.holdCount, AState.holdsLock, AState.isEnq]
 
 theorem inv_unl {N Q s a p s'} (hi : Inv s) (h : Step N Q s (.unl a p) s') : Inv s' := by
   obtain ⟨ha, rfl⟩ := step_unl h
-  obtain ⟨h1,h2,h3,h4,h5,h6,h7,h8,h9,h10,h11,h12,h13,h14,h15,h16,h17,h18,h19,h20,h21,h22,h23⟩ := hi
+  obtain ⟨h1,h2,h3,h4,h5,h6,h7,h8,h9,h10,h11,h12,h13,h14,h15,h16,h17,h18,h19,h20,h21,h22,h23,h24⟩ := hi
   have ha2 := h2 a
   simp only [ha, AState.holdCount, List.count_cons, List.count_nil, Nat.zero_add] at ha2
   have ha7 := h7 a
   simp only [ha, AState.holdsLock] at ha7
   inv_split
-  all_goals grind [AState.holdCount, AState.holdsLock]
+  all_goals grind [AState.holdCount, AState.holdsLock, AState.isEnq]
 
 theorem inv_resl {N Q s a p s'} (hi : Inv s) (h : Step N Q s (.resl a p) s') : Inv s' := by
   obtain ⟨own, r, ha, hl, rfl⟩ := step_resl h
-  obtain ⟨h1,h2,h3,h4,h5,h6,h7,h8,h9,h10,h11,h12,h13,h14,h15,h16,h17,h18,h19,h20,h21,h22,h23⟩ := hi
+  obtain ⟨h1,h2,h3,h4,h5,h6,h7,h8,h9,h10,h11,h12,h13,h14,h15,h16,h17,h18,h19,h20,h21,h22,h23,h24⟩ := hi
   have ha2 := h2 a
   simp only [ha, AState.holdCount, List.count_cons, List.count_nil, Nat.zero_add] at ha2
   have ha7 := h7 a
   simp only [ha, AState.holdsLock] at ha7
   inv_split
-  all_goals grind [AState.holdCount, AState.holdsLock]
+  all_goals grind [AState.holdCount, AState.holdsLock, AState.isEnq]
 
 theorem inv_resu {N Q s a p s'} (hi : Inv s) (h : Step N Q s (.resu a p) s') : Inv s' := by
   obtain ⟨ha, rfl⟩ := step_resu h
-  obtain ⟨h1,h2,h3,h4,h5,h6,h7,h8,h9,h10,h11,h12,h13,h14,h15,h16,h17,h18,h19,h20,h21,h22,h23⟩ := hi
+  obtain ⟨h1,h2,h3,h4,h5,h6,h7,h8,h9,h10,h11,h12,h13,h14,h15,h16,h17,h18,h19,h20,h21,h22,h23,h24⟩ := hi
   have ha2 := h2 a
   simp only [ha, AState.holdCount, List.count_cons, List.count_nil, Nat.zero_add] at ha2
   have ha7 := h7 a
   simp only [ha, AState.holdsLock] at ha7
   inv_split
-  all_goals grind [AState.holdCount, AState.holdsLock]
+  all_goals grind [AState.holdCount, AState.holdsLock, AState.isEnq]
 
 theorem inv_newx {N Q s a p s'} (hi : Inv s) (h : Step N Q s (.newx a p) s') : Inv s' := by
   obtain ⟨ret, hst, hk, rfl⟩ := step_newx h
-  obtain ⟨h1,h2,h3,h4,h5,h6,h7,h8,h9,h10,h11,h12,h13,h14,h15,h16,h17,h18,h19,h20,h21,h22,h23⟩ := hi
+  obtain ⟨h1,h2,h3,h4,h5,h6,h7,h8,h9,h10,h11,h12,h13,h14,h15,h16,h17,h18,h19,h20,h21,h22,h23,h24⟩ := hi
   have e1 := starter_hold hst
   have e2 := starter_lock hst
   have e3 := starter_some hst
   have ha2 := h2 a
   simp only [e1] at ha2
   inv_split
-  all_goals grind [AState.holdCount, AState.holdsLock]
+  all_goals grind [AState.holdCount, AState.holdsLock, AState.isEnq]
 
 theorem inv_syw {N Q s a p s'} (hi : Inv s) (h : Step N Q s (.syw a p) s') : Inv s' := by
   obtain ⟨ret, hst, hk, rfl⟩ := step_syw h
-  obtain ⟨h1,h2,h3,h4,h5,h6,h7,h8,h9,h10,h11,h12,h13,h14,h15,h16,h17,h18,h19,h20,h21,h22,h23⟩ := hi
+  obtain ⟨h1,h2,h3,h4,h5,h6,h7,h8,h9,h10,h11,h12,h13,h14,h15,h16,h17,h18,h19,h20,h21,h22,h23,h24⟩ := hi
   have e1 := starter_hold hst
   have e2 := starter_lock hst
   have e3 := starter_some hst
   have ha2 := h2 a
   simp only [e1] at ha2
   inv_split
-  all_goals grind [AState.holdCount, AState.holdsLock]
+  all_goals grind [AState.holdCount, AState.holdsLock, AState.isEnq]
 
 theorem inv_sywd {N Q s a p s'} (hi : Inv s) (h : Step N Q s (.sywd a p) s') : Inv s' := by
   obtain ⟨ret, ha, hs, rfl⟩ := step_sywd h
-  obtain ⟨h1,h2,h3,h4,h5,h6,h7,h8,h9,h10,h11,h12,h13,h14,h15,h16,h17,h18,h19,h20,h21,h22,h23⟩ := hi
+  obtain ⟨h1,h2,h3,h4,h5,h6,h7,h8,h9,h10,h11,h12,h13,h14,h15,h16,h17,h18,h19,h20,h21,h22,h23,h24⟩ := hi
   have ha2 := h2 a
   simp only [ha, AState.holdCount, List.count_cons, List.count_nil, Nat.zero_add] at ha2
   have ha7 := h7 a
@@ -412,12 +414,12 @@ theorem inv_sywd {N Q s a p s'} (hi : Inv s) (h : Step N Q s (.sywd a p) s') : I
   have e2 := retState_lock ret
   have e3 : retState ret = .idle ∨ ∃ t, retState ret = .run t := by cases ret <;> simp [retState]
   inv_split
-  all_goals grind [AState.holdCount, AState.holdsLock]
+  all_goals grind [AState.holdCount, AState.holdsLock, AState.isEnq]
 
 theorem inv_reg {N Q s a p s'} (hi : Inv s) (h : Step N Q s (.reg a p) s') : Inv s' := by
   obtain ⟨t, ha, rfl⟩ := step_reg h
   have hsu := hi.suspUnset a t p ha
-  obtain ⟨h1,h2,h3,h4,h5,h6,h7,h8,h9,h10,h11,h12,h13,h14,h15,h16,h17,h18,h19,h20,h21,h22,h23⟩ := hi
+  obtain ⟨h1,h2,h3,h4,h5,h6,h7,h8,h9,h10,h11,h12,h13,h14,h15,h16,h17,h18,h19,h20,h21,h22,h23,h24⟩ := hi
   have ha2 := h2 a
   simp only [ha, AState.holdCount, List.count_cons, List.count_nil, Nat.zero_add] at ha2
   have ha7 := h7 a
@@ -428,7 +430,7 @@ theorem inv_reg {N Q s a p s'} (hi : Inv s) (h : Step N Q s (.reg a p) s') : Inv
     by_cases hp : p' = p
     · subst hp; simp only [if_true] at hs ⊢; simp only [List.count_append, List.count_cons, List.count_nil]; grind
     · simp only [hp, if_false] at hs ⊢; grind
-  all_goals grind [AState.holdCount, AState.holdsLock]
+  all_goals grind [AState.holdCount, AState.holdsLock, AState.isEnq]
 
 theorem inv_pub {N Q s a p s'} (hi : Inv s) (h : Step N Q s (.pub a p) s') : Inv s' := by
   obtain ⟨own, r, ha, rfl⟩ := step_pub h
@@ -437,7 +439,7 @@ theorem inv_pub {N Q s a p s'} (hi : Inv s) (h : Step N Q s (.pub a p) s') : Inv
   have hcnt := fun c => hi.wAgree p c hsett
   have hm : ∀ c, c ∈ (s.prom p).conts ↔ s.loc c = .waiting p := by
     intro c; rw [← List.count_pos_iff, hcnt c]; split <;> simp_all
-  obtain ⟨h1,h2,h3,h4,h5,h6,h7,h8,h9,h10,h11,h12,h13,h14,h15,h16,h17,h18,h19,h20,h21,h22,h23⟩ := hi
+  obtain ⟨h1,h2,h3,h4,h5,h6,h7,h8,h9,h10,h11,h12,h13,h14,h15,h16,h17,h18,h19,h20,h21,h22,h23,h24⟩ := hi
   have ha2 := h2 a
   simp only [ha, AState.holdCount, List.count_cons, List.count_nil, Nat.zero_add] at ha2
   have ha7 := h7 a
@@ -458,21 +460,21 @@ theorem inv_pub {N Q s a p s'} (hi : Inv s) (h : Step N Q s (.pub a p) s') : Inv
       cases own <;> cases own' <;> grind
   inv_split
   all_goals try simp only [hm]
-  all_goals grind [AState.holdCount, AState.holdsLock]
+  all_goals grind [AState.holdCount, AState.holdsLock, AState.isEnq]
 
 theorem inv_enqc {N Q s a p c s'} (hi : Inv s) (h : Step N Q s (.enqc a p c) s') : Inv s' := by
   obtain ⟨rest, ha, hq, rfl⟩ := step_enqc h
-  obtain ⟨h1,h2,h3,h4,h5,h6,h7,h8,h9,h10,h11,h12,h13,h14,h15,h16,h17,h18,h19,h20,h21,h22,h23⟩ := hi
+  obtain ⟨h1,h2,h3,h4,h5,h6,h7,h8,h9,h10,h11,h12,h13,h14,h15,h16,h17,h18,h19,h20,h21,h22,h23,h24⟩ := hi
   have ha2 := h2 a
   simp only [ha, AState.holdCount, List.count_cons, List.count_nil, Nat.zero_add] at ha2
   have ha7 := h7 a
   simp only [ha, AState.holdsLock] at ha7
   inv_split
-  all_goals grind [AState.holdCount, AState.holdsLock]
+  all_goals grind [AState.holdCount, AState.holdsLock, AState.isEnq]
 
 theorem inv_res {N Q s a p r s'} (hi : Inv s) (h : Step N Q s (.res a p r) s') : Inv s' := by
   rcases step_res h with ⟨ha, rfl⟩ | ⟨ha, hn, hk, hc, rfl⟩
-  · obtain ⟨h1,h2,h3,h4,h5,h6,h7,h8,h9,h10,h11,h12,h13,h14,h15,h16,h17,h18,h19,h20,h21,h22,h23⟩ := hi
+  · obtain ⟨h1,h2,h3,h4,h5,h6,h7,h8,h9,h10,h11,h12,h13,h14,h15,h16,h17,h18,h19,h20,h21,h22,h23,h24⟩ := hi
     have ha2 := h2 a
     simp only [ha, AState.holdCount, List.count_cons, List.count_nil, Nat.zero_add] at ha2
     have ha7 := h7 a
@@ -486,8 +488,8 @@ theorem inv_res {N Q s a p r s'} (hi : Inv s) (h : Step N Q s (.res a p r) s') :
       refine ⟨?_, ?_⟩ <;> intro hc <;> simp only [hc, AState.holdCount] at e1 e3 <;>
         cases own' <;> grind
     inv_split
-    all_goals grind [AState.holdCount, AState.holdsLock]
-  · obtain ⟨h1,h2,h3,h4,h5,h6,h7,h8,h9,h10,h11,h12,h13,h14,h15,h16,h17,h18,h19,h20,h21,h22,h23⟩ := hi
+    all_goals grind [AState.holdCount, AState.holdsLock, AState.isEnq]
+  · obtain ⟨h1,h2,h3,h4,h5,h6,h7,h8,h9,h10,h11,h12,h13,h14,h15,h16,h17,h18,h19,h20,h21,h22,h23,h24⟩ := hi
     have ha2 := h2 a
     simp only [ha, AState.holdCount, List.count_cons, List.count_nil, Nat.zero_add] at ha2
     have ha7 := h7 a
@@ -500,7 +502,7 @@ theorem inv_res {N Q s a p r s'} (hi : Inv s) (h : Step N Q s (.res a p r) s') :
       refine ⟨?_, ?_⟩ <;> intro hc <;> simp only [hc, AState.holdCount] at e1 e3 <;>
         cases own' <;> grind
     inv_split
-    all_goals grind [AState.holdCount, AState.holdsLock]
+    all_goals grind [AState.holdCount, AState.holdsLock, AState.isEnq]
 
 
 theorem inv_step {N Q s e s'} (hi : Inv s) (h : Step N Q s e s') : Inv s' := by
